@@ -178,7 +178,19 @@ func mkShared(r *rand.Rand) *shared {
 	return s
 }
 
-// snapshot digests every shared object and the exported package tables.
+// tables digests the exported package tables and, through the verif hooks, the unexported ones.
+func (s *shared) tables() J {
+	bwKeys := []int{}
+	for k := range bitword.BitWord {
+		bwKeys = append(bwKeys, k)
+	}
+	sort.Ints(bwKeys)
+	return J{"tabMask": digest(bitmap.Mask[:]), "tabRMask": digest(bitmap.RMask[:]), "tabMaskUpto": digest(bitmap.MaskUpto[:]),
+		"tabRMaskUpto": digest(bitmap.RMaskUpto[:]), "tabBit": digest(bitmap.Bit[:]), "tabRBit": digest(bitmap.RBit[:]),
+		"tabBitWord": digest(bwKeys), "hooked": hookedTables()}
+}
+
+// snapshot digests every shared input object.
 func (s *shared) snapshot() J {
 	bwKeys := []int{}
 	for k := range bitword.BitWord {
@@ -190,9 +202,6 @@ func (s *shared) snapshot() J {
 		"sidx": digest(s.sidx), "sidx2": digest(s.sidx2), "ridx": digest(s.ridx),
 		"keys": digest(s.keys), "plainA": digest(s.plainA), "plainFull": digest(s.plainFull), "wordsFull": digest(s.wordsFull), "strA": digest(s.strA), "enc": digest(s.enc),
 		"paths": digest(s.paths), "masks": digest(s.masks), "decBM": digest(s.decBM), "decFull": digest(s.decFull), "vals": digest(s.vals),
-		"tabMask": digest(bitmap.Mask[:]), "tabRMask": digest(bitmap.RMask[:]), "tabMaskUpto": digest(bitmap.MaskUpto[:]),
-		"tabRMaskUpto": digest(bitmap.RMaskUpto[:]), "tabBit": digest(bitmap.Bit[:]), "tabRBit": digest(bitmap.RBit[:]),
-		"tabBitWord": digest(bwKeys), "hooked": hookedTables(),
 	}
 }
 
@@ -581,17 +590,17 @@ func execConc(in In, em *Emitter) {
 		}
 		em.Emit("RaceReport", J{"text": rep})
 	}
-	em.Emit("Snapshot", J{"mem": s.snapshot()})
+	em.Emit("Snapshot", J{"mem": s.snapshot(), "tabs": s.tables()})
 	// ---- sequential phases: forward, reverse; a snapshot after every call of the forward pass
 	for _, c := range cs {
 		em.Emit("SeqCall", J{"call": c.id, "r": runCall(c), "dir": "fwd"})
-		em.Emit("Snapshot", J{"mem": s.snapshot()})
+		em.Emit("Snapshot", J{"mem": s.snapshot(), "tabs": s.tables()})
 	}
 	for i := len(cs) - 1; i >= 0; i-- {
 		em.Emit("SeqCall", J{"call": cs[i].id, "r": runCall(cs[i]), "dir": "rev"})
 	}
 	em.Calls(2 * len(cs))
-	em.Emit("Snapshot", J{"mem": s.snapshot()})
+	em.Emit("Snapshot", J{"mem": s.snapshot(), "tabs": s.tables()})
 }
 
 func genC19(g *Gen) {
